@@ -203,6 +203,7 @@ func cmdCheck(prop, tier string, rest []string) int {
 	known := loadKnown()
 	ev := newEvidence(prop, tier, seed)
 	ev.loadS = eng.LoadDur.Seconds()
+	ev.solverKind = eng.SolverKind
 	exit := 0
 	inconclusive := []string{}
 	type pendingViol struct {
@@ -522,6 +523,7 @@ type evidence struct {
 	discharged    int
 	queries       int
 	solverS       float64
+	solverKind    string
 	loadS         float64
 	wall          float64
 	replays       int
@@ -637,7 +639,7 @@ func (e *evidence) write() error {
 			"bounds are those written in the harness (vhInt ranges, vhBytes lengths, loop/unwind limits); inputs outside them are not covered",
 			"engine intrinsics stand in for encoding/binary, os files, hashes (modelled injective), fmt/log (opaque); see DESIGN.md section 2.4",
 			"symbolic slice lengths are case-split up to the engine bound; values above it are cut and listed in bound_cuts",
-			"solver: z3 4.8.12 incremental, no set-logic, any (error line or unknown makes the obligation undischarged",
+			"solver: " + e.solverKind + " (z3-new = z3 5.1.0, z3 = 4.8.12) incremental, no set-logic, unknowns retried on cvc5 / z3 4.8.12 / z3 5.1.0 with 6x the limit, any (error line or remaining unknown makes the obligation undischarged",
 		},
 	}
 	b, err := json.MarshalIndent(doc, "", " ")
